@@ -57,6 +57,8 @@ def _distribution(chk, results):
             d['skipped_unpicklable'] = d.get('skipped_unpicklable', 0) + 1
             continue
         nh = sum(1 for h in res['hops'] if h['obs'] not in ('none', 'error'))
+        if res.get('xproc'):
+            d['cross_process_hops'] = d.get('cross_process_hops', 0) + nh
         d.setdefault('hops_done', {})
         d['hops_done'][str(nh)] = d['hops_done'].get(str(nh), 0) + 1
         if any(h['obs'] == 'none' for h in res['hops']):
@@ -101,7 +103,11 @@ def run(chk):
     n = 1500 if chk.tier == 'quick' else 250000
     kinds = ['', '', '', 'leaf', 'ens', 'ens', 'boundary']
     cases = [scen.gen_case(chk.rng, chk.tier, chk.rng.choice(kinds)) for _ in range(n)]
-    results = _round(chk, scen, cases)
+    # a few cases whose hops go through a real child process and multiprocessing queues (first in the
+    # list, so that the pool runs them in parallel with everything else)
+    nx = 8 if chk.tier == 'quick' else 64
+    xcases = [scen.gen_xproc_case(chk.rng, chk.tier) for _ in range(nx)]
+    results = _round(chk, scen, xcases + cases)
     for case, res in results[:400]:
         if scen.nontrivial(case, res) and (case['kind'] == 'ens' or len(chk.cov['samples']) < 1):
             chk.sample(dict(case=case, origin=res['origin'], hops=[[h['line'], scen._short(h['obs'])] for h in res['hops']],
@@ -112,10 +118,11 @@ def run(chk):
         # the model no longer predicts the code: look for a failing input around the disagreeing cases
         more = []
         for b in chk.corr_breaks[:10]:
-            for _ in range(40):
+            for _ in range(3 if b['case'].get('xproc') else 40):
                 c = json.loads(json.dumps(b['case']))
                 fresh = scen.gen_case(chk.rng, chk.tier, c['kind'])
-                c['hops'] = fresh['hops']
+                if not c.get('xproc'):
+                    c['hops'] = fresh['hops']
                 c['seed'] = fresh['seed']
                 more.append(c)
         more += [scen.gen_case(chk.rng, chk.tier, chk.rng.choice(kinds)) for _ in range(n)]
